@@ -210,7 +210,7 @@ theorem width_fixed (d b : Nat) (hd : 1 ≤ d) : (fmtEFx d b).length = numlen d 
 
 /-- **field_roundtrip for the patched writer**: `float(numform(x))` is the printed decimal `decOfFx d b` — the decimal
 with `d` digits after the point, with `d - 1` digits for a negative value with a three-digit exponent (`Wide`) -/
-theorem field_roundtrip_fixed (d b : Nat) (hd : 2 ≤ d) :
+theorem field_roundtrip_fixed (d b : Nat) (hd : 1 ≤ d) :
     pyFloat? (fmtEFx d b) = some (decOfFx d b) ∧
       (Wide d b = false → decOfFx d b = decOf d b) ∧ (Wide d b = true → decOfFx d b = decOf (d - 1) b) := by
   refine ⟨pyFloat_fmtEFx d b hd, ?_, ?_⟩ <;> intro h <;> simp [decOfFx, h]
@@ -227,14 +227,14 @@ theorem ascii_value_half_unit_fixed (d b : Nat) :
 /-- **ascii_column_roundtrip_dense for the patched writer**: the values of a dense record or of a string (any segment,
 real or complex, ANY finite doubles — the hypothesis `Fits` of `ascii_column_roundtrip_dense` is gone) come back as
 the printed decimals, in order, and exactly the value lines are consumed -/
-theorem ascii_values_roundtrip_fixed (g : Cfg) (d : Nat) (cplx : Bool) (hg : GoodCfg g d cplx) (hd : 2 ≤ d)
+theorem ascii_values_roundtrip_fixed (g : Cfg) (d : Nat) (cplx : Bool) (hg : GoodCfg g d cplx) (hd : 1 ≤ d)
     (hp : 1 ≤ perline d) (seg : List Entry) (rest : List (List Char)) :
     ∃ blk, getBlock g (segDs cplx seg).length (valLinesFx d (segDs cplx seg) ++ rest) = (blk, rest) ∧
       readVals g blk (segDs cplx seg).length = some (seg.map (aEntryFx d cplx)) :=
   readVals_valLinesFx g d cplx hg hd hp seg rest
 
 /-- **file_roundtrip_ascii for the patched writer.**  For every non-empty list of matrices (each with its resolved
-layout) written with `d` digits, `2 ≤ d ≤ 73`, holding ANY finite doubles: `op4.load` on the text the patched writer
+layout) written with `d` digits, `1 ≤ d ≤ 73`, holding ANY finite doubles: `op4.load` on the text the patched writer
 produces (`loadAscii`, the unchanged reader model) returns exactly one `ADec` per matrix, in file order, carrying the
 written name field, rows (negated for bigmat), columns, form, type, the announced `perline`/`numlen`, and puts that
 rebuild (`applyPutsA`) a matrix related entry by entry (`Op4AFx.ReadOf`, see `ascii_entry_spec_fixed`) to the columns
@@ -242,7 +242,7 @@ rebuild (`applyPutsA`) a matrix related entry by entry (`Op4AFx.ReadOf`, see `as
 8-character fields, a valid name; nonbigmat only below 65536 rows) WITHOUT "every written value fits its field" — the
 condition of finding F3 is gone.  (The proof is the chain of `file_roundtrip_ascii` re-checked with the three facts
 about the formatter replaced by `fmtEFx_length` / `pyFloat_fmtEFx` / `fmtEFx_fieldChar`: Lemmas/Op4FixedChain{A,B,C}.) -/
-theorem file_roundtrip_ascii_fixed (d : Nat) (hd : 2 ≤ d) (hd' : d ≤ 73) (ms : List (Layout × Mat)) (hne : ms ≠ [])
+theorem file_roundtrip_ascii_fixed (d : Nat) (hd : 1 ≤ d) (hd' : d ≤ 73) (ms : List (Layout × Mat)) (hne : ms ≠ [])
     (hok : ∀ p ∈ ms, WfA p.2 ∧ (p.1 = .nonbigmat → p.2.rows < rows4bigmat)) :
     ∃ ds, loadAscii (encFileAsciiFx d ms) = some ds ∧ List.Forall₂ (Op4AFx.ADecOf d) ms ds := by
   have hp : 1 ≤ perline d := by
